@@ -38,31 +38,31 @@ THEOREMS = [
     "ESV.C10.rejects_switch_ends_empty", "ESV.C10.rejects_two_defaults", "ESV.C10.rejects_stmts_in_message_switch",
     "ESV.C10.rejects_label_in_with", "ESV.C10.rejects_not_on_bit", "ESV.C10.rejects_unknown_macro",
     "ESV.C10.rejects_too_few_macro_args", "ESV.C10.tooFew_of_lt", "ESV.C10.rejects_recursive_macros",
-    "ESV.C10.rejects_jump_undefined", "ESV.C10.rejects_jump_undefined_partial", "ESV.C10.rejects_jump_undefined_in_macro",
-    "ESV.C10.rejects_jump_undefined_counterexample",
-    "ESV.C10.error_kinds_documented_partial", "ESV.C10.error_kinds", "ESV.C10.error_kinds_counterexample",
+    "ESV.C10.rejects_jump_undefined", "ESV.C10.rejects_jump_undefined_in_macro",
+    "ESV.C10.rejects_bad_first_routine_id", "ESV.C10.rejects_fixed_routine_target",
+    "ESV.C10.error_kinds_documented", "ESV.C10.world_error_kinds_documented",
     "ESV.C10.rejects_missing_import", "ESV.C10.rejects_failing_import", "ESV.C10.rejects_cyclic_import",
-    "ESV.C10.routines_in_import_accepted", "ESV.C10.rejects_routines_in_import_if_reparsed", "ESV.C10.ssbscript_import_accepted",
+    "ESV.C10.rejects_routines_in_import", "ESV.C10.rejects_ssbscript_import",
     "ESV.C10.core_rejects_break_outside", "ESV.C10.core_rejects_continue_outside", "ESV.C10.core_rejects_break_loop_outside",
     "ESV.C10.core_rejects_switch_ends_empty", "ESV.C10.core_rejects_two_defaults", "ESV.C10.core_rejects_label_in_with",
     "ESV.C10.core_rejects_unknown_macro", "ESV.C10.core_rejects_too_few_macro_args", "ESV.C10.core_rejects_recursive_macros",
-    "ESV.C10.core_rejects_jump_undefined", "ESV.C10.core_rejects_jump_undefined_partial", "ESV.C10.core_error_kinds_documented_partial",
+    "ESV.C10.core_rejects_jump_undefined", "ESV.C10.core_error_kinds_documented",
     "ESV.Static.collectS_fail", "ESV.Static.addOkS_fail", "ESV.Static.collectS_doc", "ESV.Static.macroCycle_of_closed",
-    "ESV.Static.checkFile_fail_of_chain", "ESV.Static.checkFile_macrosOnly_doc",
+    "ESV.Static.checkFile_fail_of_chain", "ESV.Static.checkFile_doc", "ESV.Static.checkLocal_doc",
 ]
 
 DOCUMENTED = ("ParseError", "SsbCompilerError", "ValueError")
-# the model's configuration for the pinned tree: HasRoutinesVisitor visits a second, empty parse (see Cfg.reparseEmpty in
-# lean/ESV/Static/Ast.lean). To be set to False together with a `fix:` commit that passes `tree` to the visitor.
-MODEL_CFG = {"perf": PERF_VAR, "reparse_empty": True}
+MODEL_CFG = {"perf": PERF_VAR}
 MEM_MB = 1500
 
 # inputs that exercise the counterexample theorems and the recorded defects on the real code (run first, every time)
-SLOW_CORPUS = [
-    {"text": "def 99999999999 { a(); }", "name": "routine id of 11 digits: one list entry per id until memory runs out"},
-    {"text": "macro a() { x(Position<'m', 1, 2>); } macro b() { ~a(); } def 0 { ~b(); }", "name": "A16 position mark in a macro called from a macro"},
-]
+SLOW_CORPUS: list[dict] = []
 CORPUS = [
+    {"text": "def 99999999999 { a(); }", "name": "routine id of 11 digits (pinned tree: no answer; repaired: SsbCompilerError)"},
+    {"text": "macro a() { x(Position<'m', 1, 2>); } macro b() { ~a(); } def 0 { ~b(); }", "name": "A16 position mark in a macro called from a macro (pinned tree: no answer; repaired: compiles)"},
+    {"text": "def 0 { " + "switch ($x) { case 1: " * 150 + "a();" + " }" * 150 + " }", "name": "150 nested switches (pinned tree: RecursionError; repaired: SsbCompilerError)"},
+    {"text": "//?: is-ssb-script: true\ndef 0 for { a(); }", "name": "SsbScript listener on a syntax error (pinned tree: TypeError; repaired: ParseError)"},
+    {"text": "//?: is-ssb-script: true\ndef -1 { a(); }", "name": "SsbScript negative routine id (pinned tree: IndexError; repaired: SsbCompilerError)"},
     {"text": "macro m() { @x; } def 0 { ~m(); }", "name": "error_kinds_counterexample (Lean: exLabelOnly)"},
     {"text": "macro m() { @x; } def 0 { ~m(); } def 1 { jump @nowhere; }", "name": "rejects_jump_undefined_counterexample (Lean: exLabelOnlyUndefined)"},
     {"text": "//?: a: b", "name": "A8 attribute lines only"},
@@ -277,7 +277,8 @@ def part_a(run: core.Run, pool: core.Pool, drv_ok: bool, jobs: int, n_invalid: i
         core_seen = 0
         for (c, o, _p), m in zip(core_cases, reps[len(cases) + len(wmodelled):]):
             # the core AST has lost: message switches, string cases, `not` on bit tests, inline contexts; compare where nothing was lost
-            lossy = any(s in ("statements_in_message_switch", "not_on_bit_of_ordinary_variable", "string_case_in_ordinary_switch", "inline_context_inside_with") for s in c["shapes"])
+            lossy = any(s in ("statements_in_message_switch", "not_on_bit_of_ordinary_variable", "string_case_in_ordinary_switch", "inline_context_inside_with",
+                              "routine_id_negative_or_gap", "decimal_routine_target") for s in c["shapes"])
             lossy = lossy or any(i.get("variant") in ("message_switch", "new_string_default_last", "if_header_vs_block", "switch_string_case_after_body") for i in c["infos"])
             if lossy or o.get("no_answer"):
                 continue
@@ -417,8 +418,8 @@ def run(run: core.Run) -> int:
     })
     return run.finish("other", cov, [
         "the ANTLR runtime and the generated lexer/parser are not modelled: part B is exploration only",
-        "Static.check models the rejection sites, not the back end: the assert on op offsets, LabelFinalizer and the routine table are outside the model; "
-        "their undocumented exceptions (descending / negative routine ids, decimal targets) are found by part B and recorded as known findings",
+        "Static.check models the rejection sites, not the back end: the order check on op offsets (routines written twice or out of id order, "
+        "SsbCompilerError) and LabelFinalizer are outside the model; generated programs write each id once, ascending",
         "the order in which the macros of one file are compiled (macro resolution order) is not modelled: generated macro call graphs are forests",
         "import paths are resolved by the harness (posix normalisation, lookup directories); os.path.realpath/symlinks are not modelled",
         "worker processes run compile() with Python's default recursion limit (1000) and RLIMIT_AS 1500 MB",
